@@ -77,6 +77,13 @@ def gen(r) -> Dict[str, Any]:
     r.shuffle(subs) if r.random() < 0.3 else None
     # keep relative order of handlers of the same source stable after shuffling? not needed: order of subscribe calls
     # *is* the subscription order the oracle uses.
+    if r.random() < 0.3:
+        # handlers schedule jobs, also for times already in the past: the clock clauses hold across them too
+        for sub in subs:
+            if sub["kind"] == "h" and r.random() < 0.5:
+                sub["schedule"] = [{"on": n, "job": {"dt": r.choice([-7.0, -1.0, 0.0, 0.5, 3.0]), "steps": r.choice([0, 1]),
+                                                     "fail": r.random() < 0.1, "schedule": []}}
+                                   for n in range(6) if r.random() < 0.3]
     return {"max_concurrent": mc, "sources": sources, "derived": nder, "subscriptions": subs, "jobs": [],
             "stop_on_handler_exceptions": False, "tz_minutes": r.choice([[0], [0], [0, -300, 330], [540, -480, 60]])}
 
